@@ -65,7 +65,7 @@ def gen_case(rng, params, idx):
     if rng.random() < 0.25:
         return _gen_dep_case(rng)
     mode = rng.choice(["plain", "plain", "plain", "variant", "mixin", "method"])
-    kinds = ["leaf", "next", "next", "next", "nextalt", "rec"] + (["fnext"] if mode == "plain" else [])
+    kinds = ["leaf", "next", "next", "next", "nextalt", "rec"] + (["fnext", "fnextalt"] if mode == "plain" else [])
     hier = gen.gen_hierarchy(rng, rng.randint(2, 6), attrs=False, p_multi=0.5)
     spec = gen.gen_program(rng, hier=hier, npos=rng.choice([1, 1, 2]), kinds=kinds, kw=0.0, other_arity=0.0,
                            repeat=0.2 if mode in ("plain", "method") else 0.0, extras=(), catchall=0.5)
@@ -104,7 +104,7 @@ def check_case(spec, res):
     res.count("programs")
     res.count("mode_" + spec["mode"])
     res.sample(spec, spec["mode"])
-    res.count("fnext_sites", sum(1 for m in methods if m["kind"] == "fnext"))
+    res.count("fnext_sites", sum(1 for m in methods if m["kind"] in ("fnext", "fnextalt")))
     rng = random.Random(spec["callseed"])
     if spec.get("dep"):
         res.count("dep_programs")
@@ -179,7 +179,7 @@ def _same_arg_chain(out, methods):
     """method ids entered, when every delegation kept its arguments (next / fnext only)"""
     by = {m["mid"]: m for m in methods}
     entered = out[1] if out[0] == "ran" else out[-1]
-    if any(by[m]["kind"] in ("rec", "nextalt") for m in entered[:-1]):
+    if any(by[m]["kind"] in ("rec", "nextalt", "fnextalt") for m in entered[:-1]):
         return None
     return list(entered)
 
@@ -191,7 +191,7 @@ def _f22_region(entered, methods, call, env):
     altcall = {"pos": call.get("alt", []), "kw": {}}
     for mid in entered:
         m = by[mid]
-        if m["kind"] == "nextalt" and any(not isinstance(p["t"], str) for p in m["pos"]):
+        if m["kind"] in ("nextalt", "fnextalt") and any(not isinstance(p["t"], str) for p in m["pos"]):
             if R.applicable(m, altcall, env) is False:
                 bounds = dict(m, pos=[dict(p, t=(T.bound_of(p["t"], env) if not isinstance(p["t"], str) else p["t"]))
                                       for p in m["pos"]])
@@ -209,7 +209,7 @@ def _has_fresh(exp, methods, call, env):
     t = exp[1]
     while isinstance(t, tuple) and len(t) == 3:
         m = by[t[1]]
-        if t[0] == "n" and m["kind"] == "nextalt" and R.applicable(m, altcall, env) is False:
+        if t[0] == "n" and m["kind"] in ("nextalt", "fnextalt") and R.applicable(m, altcall, env) is False:
             return True
         t = t[2]
     return False
